@@ -187,7 +187,7 @@ func genCfg(rnd *tr.Rand, focus string) *caseCfg {
 			n = 2
 		}
 		for i := 0; i < n; i++ {
-			name := rnd.PickS([]string{"read", "read", "wr", "wr", "close", "epctl-add", "epctl-mod", "epctl-del", "accept", "wait"})
+			name := rnd.PickS([]string{"read", "read", "wr", "wr", "close", "epctl-add", "epctl-mod", "epctl-del", "accept", "accept0", "wait"})
 			var kinds []string
 			switch name {
 			case "read", "wr":
@@ -195,7 +195,7 @@ func genCfg(rnd *tr.Rand, focus string) *caseCfg {
 				if !c.et {
 					kinds = append(kinds, "eagain", "eagain")
 				}
-			case "accept":
+			case "accept", "accept0":
 				kinds = []string{"eintr", "econnaborted", "econnreset"}
 			case "wait":
 				kinds = []string{"eintr"}
@@ -205,6 +205,10 @@ func genCfg(rnd *tr.Rand, focus string) *caseCfg {
 				kinds = []string{"enomem", "ebadf", "einval"}
 			}
 			c.inject = append(c.inject, inject{name: name, index: rnd.Intn(7), kind: rnd.PickS(kinds), cid: -1})
+		}
+		if (!c.reuseport || c.proto == "unix") && rnd.Chance(35) {
+			// main-reactor mode: a transient accept4 failure on the acceptor thread (edge-triggered listener)
+			c.inject = append(c.inject, inject{name: "accept0", index: rnd.Intn(4), kind: rnd.PickS([]string{"eintr", "econnaborted", "econnreset"}), cid: -1})
 		}
 	}
 	return c
@@ -764,14 +768,33 @@ func runCase(w *tr.Writer, seed uint64, idx int, focus string) {
 			rec.mu.Unlock()
 			w.Hist("client-dial")
 		case !cfg.client && len(peers) < cfg.maxConns && (len(lp) == 0 || k < 12):
+			rec.mu.Lock()
+			g0 := rec.nextGid
+			rec.mu.Unlock()
 			c, err := net.Dial(dialNet, dialAddr)
 			if err != nil {
 				continue
 			}
 			p := &peer{conn: c, cid: -1}
-			peers = append(peers, p)
 			woken(seq, 2*time.Second)
 			quiet()
+			taken := func() bool {
+				rec.mu.Lock()
+				defer rec.mu.Unlock()
+				return rec.nextGid > g0
+			}
+			for t0 := time.Now(); !taken() && !engineDown() && time.Since(t0) < time.Second; {
+				time.Sleep(time.Millisecond)
+			}
+			if !taken() {
+				if !engineDown() {
+					// C18: a transient accept failure must have no visible effect: the connection is served
+					rec.Fail("accept-stuck", "connect", "a connection completed by the kernel was not accepted by the running engine within 3 s")
+				}
+				c.Close()
+				continue
+			}
+			peers = append(peers, p)
 			rec.mu.Lock()
 			p.cid = rec.nextGid - 1
 			rec.mu.Unlock()
@@ -1071,6 +1094,10 @@ func runCase(w *tr.Writer, seed uint64, idx int, focus string) {
 	}
 	if len(rec.injected) > 0 {
 		w.Tag("fault-injected")
+	}
+	if len(rec.injectedAcc) > 0 {
+		w.Tag("fault-injected")
+		w.Hist("acceptor-fault")
 	}
 	if cfg.scenario != "" {
 		w.Tag("scenario")
